@@ -235,11 +235,14 @@ CHECKS = {
              'its reference dataset and select two distinct ones. Part 2: ComponentIDComboHelper - choices and selection as a '
              'function of the datasets\' ordered attributes, their kinds and the kind filters (every history of <= 4 operations). '
              'Part 3 (DataPickers.tla): DataCollectionComboHelper and ManualDataComboHelper follow the collection (append, remove, '
-             're-append, relabel, manual append/remove, selections, hub delay blocks; every history of <= 5 operations).',
+             're-append, relabel, manual append/remove, selections, hub delay blocks; every history of <= 5 operations). In the other '
+             'direction every Viewer object created by the repository\'s own tests is recorded by an external tracer (calls on the '
+             'viewer and on its collection, layers projected after each call) and validated by TLC against Trace_Viewer.tla, which '
+             'reuses the layer effects of Viewer.tla; impossible traces (missing, duplicate, stale layer, ...) must be rejected.',
         note='Bounded: 1-3 datasets, 1-3 groups; viewer operations only outside hub delay blocks; sessions with stand-alone subsets are '
              'not saved/restored in the model (a restore turns them into groups by design); a picker may select any remaining '
              'choice when its selection disappears. Two open known findings (KF-C18-1, KF-C18-2). Qt/Jupyter front-ends are other repositories.',
-        technique='TLA+ spec + TLC + behaviour replay into real viewers and combo helpers',
+        technique='TLA+ spec + TLC; behaviour replay into real viewers and combo helpers (spec->code) and TLC trace validation of recorded viewers (code->spec)',
         design='7/C18'),
 }
 
